@@ -553,6 +553,129 @@ def rule_fused_export(rep, repo):
                 loc=loc, instance="%s/%s export" % (cfg, nth))
 
 
+ALIAS_PRESERVING_CALLS = ("cast_to_floatx", "asarray", "asanyarray",
+                          "convert_to_tensor", "numpy", "squeeze", "reshape",
+                          "ravel", "view", "identity")
+IN_PLACE_METHODS = ("assign", "assign_add", "assign_sub", "fill", "sort",
+                    "itemset", "put", "resize", "partition")
+
+
+def rule_export_effects(rep, repo):
+  """R14 (effect analysis on the syntax tree): the export reads quantizer
+  and layer state, it does not write it.  In model_save_quantized_weights
+  and add_bn_fusing_weights every local that MAY alias an attribute of a
+  quantizer / layer object (bound from `obj.attr`, a conditional expression
+  with such a branch, or a call that can return its argument unchanged:
+  cast_to_floatx, asarray, .numpy(), reshape, ...) must not be the target of
+  an in-place operation (augmented assignment, element / slice store,
+  `out=`, assign / fill / sort ...).  An in-place update of such a local
+  rewrites the live quantizer's recorded scale, which later calls read."""
+  um = repo.module(UM)
+  for fname in ("model_save_quantized_weights", "add_bn_fusing_weights"):
+    fn = um.functions.get(fname)
+    if fn is None:
+      raise AnalysisError("anchor-missing utils.%s" % fname)
+    unit = "%s::%s" % (um.relpath, fname)
+    rep.unit(unit)
+    # names holding objects whose attributes are live state
+    holders = {"quantizer", "layer", "prev_layer", "bn_layer", "model"}
+    for n in ast.walk(fn):
+      if isinstance(n, (ast.For, ast.comprehension)):
+        tgts = [t.id for t in ast.walk(n.target) if isinstance(t, ast.Name)]
+        src = ast.unparse(n.iter)
+        if any(h in src for h in ("get_quantizers", "layers", "quantizers")):
+          holders.update(tgts)
+
+    def may_alias(expr, aliases):
+      if isinstance(expr, ast.Attribute):
+        base = expr.value
+        if isinstance(base, ast.Name) and base.id in holders:
+          return True
+        return may_alias(base, aliases)
+      if isinstance(expr, ast.Name):
+        return expr.id in aliases
+      if isinstance(expr, ast.IfExp):
+        return may_alias(expr.body, aliases) or may_alias(expr.orelse,
+                                                          aliases)
+      if isinstance(expr, ast.Subscript):
+        return may_alias(expr.value, aliases)     # a view of an alias
+      if isinstance(expr, ast.Call):
+        f_ = expr.func
+        nm = f_.attr if isinstance(f_, ast.Attribute) else getattr(
+            f_, "id", "")
+        if nm in ALIAS_PRESERVING_CALLS:
+          if isinstance(f_, ast.Attribute) and may_alias(f_.value, aliases):
+            return True                # x.numpy(), x.reshape(...)
+          return any(may_alias(a, aliases) for a in expr.args)
+      return False
+    aliases = set()
+    changed = True
+    while changed:            # flow-insensitive closure
+      changed = False
+      for n in ast.walk(fn):
+        if isinstance(n, ast.Assign) and may_alias(n.value, aliases):
+          for t in n.targets:
+            if isinstance(t, ast.Name) and t.id not in aliases:
+              aliases.add(t.id)
+              changed = True
+    # statement lists, to find the binding that reaches an in-place update
+    # on straight-line code: a fresh value (copy, arithmetic result) bound
+    # just before it in the same block is not state
+    blocks = [b for n_ in ast.walk(fn) for b in (
+        getattr(n_, "body", None), getattr(n_, "orelse", None),
+        getattr(n_, "finalbody", None)) if isinstance(b, list)]
+
+    def freshly_bound(stmt, name):
+      for b in blocks:
+        if stmt in b:
+          for prev in reversed(b[:b.index(stmt)]):
+            if isinstance(prev, ast.Assign) and any(
+                isinstance(t_, ast.Name) and t_.id == name
+                for t_ in prev.targets):
+              return not may_alias(prev.value, aliases)
+            if any(isinstance(x, (ast.Name)) and x.id == name and
+                   isinstance(x.ctx, ast.Store) for x in ast.walk(prev)):
+              return False      # bound inside a nested statement: unknown
+      return False
+    writes = []
+    for n in ast.walk(fn):
+      if isinstance(n, ast.AugAssign):
+        t = n.target
+        root = t
+        while isinstance(root, (ast.Subscript, ast.Attribute)):
+          root = root.value
+        if isinstance(root, ast.Name) and (
+            root.id in aliases or (root.id in holders and
+                                   isinstance(t, ast.Attribute))) and \
+            not freshly_bound(n, root.id):
+          writes.append((n, "augmented assignment to " + ast.unparse(t)))
+      elif isinstance(n, ast.Assign):
+        for t in n.targets:
+          if isinstance(t, ast.Subscript) and may_alias(t.value, aliases) \
+              and not (isinstance(t.value, ast.Name) and
+                       t.value.id == "saved_weights"):
+            writes.append((n, "element store into " + ast.unparse(t)))
+          if isinstance(t, ast.Attribute) and isinstance(
+              t.value, ast.Name) and t.value.id in holders - {"model"}:
+            writes.append((n, "attribute store " + ast.unparse(t)))
+      elif isinstance(n, ast.Call):
+        f_ = n.func
+        if isinstance(f_, ast.Attribute) and f_.attr in IN_PLACE_METHODS \
+            and may_alias(f_.value, aliases):
+          writes.append((n, "in-place call " + ast.unparse(f_)))
+        for kw_ in n.keywords:
+          if kw_.arg == "out" and may_alias(kw_.value, aliases):
+            writes.append((n, "out= " + ast.unparse(kw_.value)))
+    rep.check(not writes, "R14", unit, "writes-quantizer-or-layer-state",
+              "%s updates in place a value that may be a quantizer's / "
+              "layer's own state: %s (locals that may alias such state: %s)"
+              % (fname, [w for _, w in writes], sorted(aliases)),
+              loc=um.loc(writes[0][0]) if writes else um.loc(fn),
+              observed=str([w for _, w in writes]))
+    rep.extra.setdefault("export_locals_that_may_alias_state", {})[
+        fname] = sorted(aliases)
+
+
 # Keras weight order of the parent classes (trusted table, DESIGN 2.6)
 WEIGHT_ORDER = {
     "Dense": ["kernel", "bias?"],
@@ -1281,6 +1404,8 @@ def run(rep, repo, tier):
   rule_bn_fusing(rep, repo)
   rule_fused_export(rep, repo)
   rep.require_instances("R13", 10)
+  rule_export_effects(rep, repo)
+  rep.require_instances("R14", 2)
   rule_pairing(rep, repo)
   rule_frozen_scale(rep, repo)
   rule_fusing_pairs(rep, repo)
